@@ -1,7 +1,9 @@
 ------------------------------- MODULE MC_Pool -------------------------------
 EXTENDS Pool, Json
 CallsFn == [t \in Tasks |-> 1 + (t % 3)]
-Next == PoolNext
+\* termination: the map always delivers every result; a schedule that gets stuck is a TLC deadlock error
+Terminated == AllDone /\ UNCHANGED pvars
+Next == PoolNext \/ Terminated
 N == Cardinality(Tasks)
 InitFull == /\ order = [i \in 1..N |-> i]
             /\ next = 1 /\ running = [w \in Workers |-> 0] /\ iter = [w \in Workers |-> ParentCounter]
